@@ -82,6 +82,55 @@ def run(src, tier, seed):
             res.ok(r, '%s: fallback tail re-canonicalises' % f['name'])
         else:
             res.bad(r, 'tail-not-canonical:%s' % f['name'].replace('opensmt::', ''), fx.loc(f, labs[0].get('ln')), '%s: the arbitrary-precision fallback does not end in try_fit_word(): a value that fits a word stays in GMP form and equal values get different representations / hashes' % f['name'])
+    # ---- every path that writes the word fields of a parameter declares the representation state before it returns
+    from walk import Client as _Client, Engine as _Engine
+    MARKERS = ('setOnlyWordPartValid', 'setWordPartValid', 'try_fit_word', 'setMpqAllocatedAndValid', 'setMpqPartInvalid', 'force_ensure_mpq_valid', 'ensure_mpq_valid', 'operator=')
+
+    class WordWrite(_Client):
+        def __init__(self, params):
+            self.params = params
+            self.bad = set()
+
+        def on_assign(self, n, s):
+            a = as_assign(n)
+            p_ = path_of(a[0]) if a else None
+            if p_ and '.' in p_ and p_.rsplit('.', 1)[1] in ('num', 'den') and p_.rsplit('.', 1)[0] in self.params:
+                return (s | {p_.rsplit('.', 1)[0]},)
+            return (s,)
+
+        def on_call(self, n, s):
+            if mname(n) in MARKERS or n.get('op') == '=':
+                obj = recv_path(n)
+                if obj in s:
+                    return (s - {obj},)
+            return self.on_assign(n, s)
+
+        def on_exit(self, kind, node, s):
+            if kind != 'throw':
+                for obj in s:
+                    self.bad.add((obj, node.get('ln') if isinstance(node, dict) else None))
+    n_ww = 0
+    for f in sorted(fx.F.values(), key=lambda f: f['name']):
+        if not f.get('body') or 'FastRational.h' not in f['file']:
+            continue
+        params = {p_['n'] for p_ in f['params'] if 'FastRational' in p_['t'] and '&' in p_['t'] and 'const' not in p_['t']}
+        if not params or not any(as_assign(n) and (path_of(as_assign(n)[0]) or '').rsplit('.', 1)[-1] in ('num', 'den') and (path_of(as_assign(n)[0]) or '').rsplit('.', 1)[0] in params for n in fwalk(f)):
+            continue
+        n_ww += 1
+        w = WordWrite(params)
+        eng = _Engine(f, w)
+        eng.run([frozenset()])
+        if eng.broken:
+            raise AnalysisBroken('%s: %s' % (f['name'], eng.broken))
+        if w.bad:
+            obj, ln = sorted(w.bad, key=str)[0]
+            res.bad(r, 'word-write-unmarked:%s' % f['name'].replace('opensmt::', ''), fx.loc(f, ln), '%s can return (line %s) after writing %s.num / %s.den without declaring the representation state '
+                    '(setOnlyWordPartValid / setWordPartValid / try_fit_word): if %s also held a valid GMP value, that stale value stays valid and GMP-side arithmetic and comparisons read it'
+                    % (f['name'].replace('opensmt::', ''), ln, obj, obj, obj))
+        else:
+            res.ok(r, '%s: every path that writes the word fields marks the representation' % f['name'].replace('opensmt::', ''))
+    if n_ww == 0:
+        raise AnalysisBroken('canonical-tails: no function writing the word fields of a FastRational parameter found')
     # ---- representation state: marking one representation valid either invalidates the other or follows a derivation from it
     r = res.rule('representation-marks-exclusive', 'a FastRational carries a machine-word and a GMP representation with validity flags; a setter that adds a validity flag without clearing '
                  'the other (state |= ...) is called only by the exclusive wrapper that also clears the other flag, or after the marked representation was computed from the other '
